@@ -159,6 +159,7 @@ func worldPlugins(w *World) {
 						ms = map[string]any{}
 					}
 					ms["seen_"+p.name] = "1"
+					delete(ms, "tier") // a rewrite may also remove what the client sent
 					c["metas"] = ms
 					c["remote_port"] = 20001 + p.idx
 				case "Ping":
@@ -285,6 +286,9 @@ func worldPlugins(w *World) {
 							if rp, _ := last.Content["remote_port"].(float64); int(rp) != 20001+prevRewrite.idx {
 								ok = false
 							}
+							if _, still := ms["tier"]; still {
+								ok = false // the previous plugin removed this key
+							}
 						}
 					case "Ping":
 						ts, _ := last.Content["timestamp"].(float64)
@@ -320,7 +324,7 @@ func worldPlugins(w *World) {
 	// NewProxy
 	snap()
 	e = expect("NewProxy")
-	rr, got := c.register(M{"proxy_name": "pp", "proxy_type": "tcp", "remote_port": 20000})
+	rr, got := c.register(M{"proxy_name": "pp", "proxy_type": "tcp", "remote_port": 20000, "metas": M{"tier": "gold"}})
 	regOK := got && mstr(rr, "error") == ""
 	verify("NewProxy", e, regOK, "proxy registration")
 	port := 20000
